@@ -120,10 +120,42 @@ var faultStmts = []string{
 // faults in return position (must be the last statement of their block)
 var faultReturns = []string{`return 1 / zero`, `return nope`, `return p.F`, `return !5`, `return m[1]`, `return l[3]`, `return 1 + "a"`, `return pval()`, `return s.Nil.F`}
 
-// a for loop that never ends (cut off by the engine after 10000 iterations)
+// for loops that never end (cut off by the engine after 10000 iterations), whatever way their
+// iterations end: normally, through continue (direct or nested), or mixed
 const faultEndless = `for i = 0; i < 5; i = 0 {
     x = 1
   }`
+
+var faultEndlessMore = []string{
+	`for i = 0; i < 5; i = 0 {
+    x = 1
+    continue
+  }`,
+	`for i = 0; i < 5; i = 0 {
+    if true {
+      continue
+    }
+    x = 1
+  }`,
+	`x = 0
+  for i = 0; i < 5; i = 0 {
+    x += 1
+    if x > 3 {
+      continue
+    }
+    y = 1
+  }`,
+	`for i = 0; i < 5; i = 0 {
+    forRange w := l2 {
+      continue
+    }
+  }`,
+	`for i = 0; true; i += 1 {
+    if i < 0 {
+      break
+    }
+  }`,
+}
 
 func nestFault(f string, nesting int) string {
 	ind := strings.ReplaceAll(f, "\n", "\n  ")
@@ -163,12 +195,18 @@ func c09Configs(thorough bool) (cfgs []modelCfg, bounds []int) {
 		}
 	}
 	faults = append(faults, fl{faultEndless, false})
+	for _, f := range faultEndlessMore {
+		faults = append(faults, fl{f, false})
+	}
 	models := c09ModelList()
 	for fi, f := range faults {
 		for pos := 0; pos < 2; pos++ {
 			for mi, m := range models {
-				if f.text == faultEndless && (pos == 1 || mi%5 != 0) && !thorough {
-					continue
+				if strings.HasPrefix(strings.TrimPrefix(f.text, "x = 0\n  "), "for i = 0;") && strings.Contains(f.text, "i = 0 {") || strings.Contains(f.text, "true; i += 1") {
+					// endless loops: 10000 iterations each, so quick tries them in every fifth model, first position
+					if (pos == 1 || (mi+fi)%5 != 0) && !thorough {
+						continue
+					}
 				}
 				if !thorough && !f.rep && (fi+mi+pos)%2 != 0 {
 					continue // quick: each fault meets every second model per position (all models over both positions)
@@ -328,7 +366,7 @@ func init() {
 		BudgetQuick: 170 * time.Second,
 		BudgetThor:  30 * time.Minute,
 		Kind:        "schedules",
-		Rule: fmt.Sprintf("%d statement faults + %d return-position faults (type mismatches in arithmetic/comparison/logic/!, division by zero, unknown variable/function/method, wrong-class stores, nil pointers, out-of-range / negative / wrong-type indexes and keys, non-boolean conditions, bad call arguments and arities, panicking injected functions (value, error, runtime error), void result used as value, failing loop step, non-iterable forRange, faults inside conc) x nesting {top, if, for, forRange} [quick: rotated] + an endless for loop, ", len(faultStmts), len(faultReturns)) +
+		Rule: fmt.Sprintf("%d statement faults + %d return-position faults (type mismatches in arithmetic/comparison/logic/!, division by zero, unknown variable/function/method, wrong-class stores, nil pointers, out-of-range / negative / wrong-type indexes and keys, non-boolean conditions, bad call arguments and arities, panicking injected functions (value, error, runtime error), void result used as value, failing loop step, non-iterable forRange, faults inside conc) x nesting {top, if, for, forRange} [quick: rotated] + 6 endless for loops (iterations ending normally, through continue - direct, nested, mixed -, with an unreachable break), ", len(faultStmts), len(faultReturns)) +
 			"as rule 1-of-3 and 2-of-3 next to healthy observer rules x every engine model (x policy) [quick: every second], each called twice on the same engine under the default schedule; representatives under every schedule with <=1 (2) preemptions in the goroutine-spawning models; plus representatives behind all 24 pool execute methods x execution models, three requests each. " +
 			"Oracle: the call returns (no panic in the caller, no panic on any gengine goroutine, no deadlock, step horizon not exceeded), error non-nil, the other rules run exactly as the model's reference plan prescribes, the second call behaves the same",
 		Assume: []string{"injected functions terminate", "one level of unbounded loop (the engine's 10000-iteration cut-off)"},
